@@ -315,7 +315,7 @@ def bits_equal(a, b):
     return a == b or (a != a and b != b)
 
 
-def compare(exp, got, shape_cell=None, has_component_col=False, ang_only_tol=True):
+def compare(exp, got, shape_cell=None, has_component_col=False, ang_only_tol=True, max_poly=None):
     """-> list of (key, msg, what) problems; empty when got matches exp."""
     probs = []
     if exp['cls'] != got['cls']:
@@ -347,8 +347,10 @@ def compare(exp, got, shape_cell=None, has_component_col=False, ang_only_tol=Tru
             n = len(ex)
             if len(gx) == n and np.array_equal(gx, ex) and np.array_equal(gy, ey):
                 continue
+            # the known mechanism pads a polygon row up to the vertex count of the WIDEST POLYGON of the list - extra vertices
+            # beyond that (or without any wider polygon in the list) have another cause
             if len(gx) > n and np.array_equal(gx[:n], ex) and np.array_equal(gy[:n], ey) and \
-                    not np.any(gx[n:]) and not np.any(gy[n:]):
+                    not np.any(gx[n:]) and not np.any(gy[n:]) and (max_poly is None or len(gx) <= max_poly):
                 probs.append((K_POLYPAD, f'polygon with {n} vertices came back with {len(gx) - n} extra (0, 0) vertices', 'geometry'))
             else:
                 probs.append(('fits-geometry-changed', f'vertices changed ({n} -> {len(gx)} vertices)', 'geometry'))
@@ -487,10 +489,11 @@ def judge_rows(exps, got_regions, table, ctx, what, count_rows=True):
     if table is not None and 'X' in table.colnames and table['X'].ndim > 1:
         xw = table['X'].shape[1]
     gots = []
+    max_poly = max([len(e['params'][0][2][0]) for e in exps if e['params'] and e['params'][0][1] == 'poly'] + [0])
     for i, (e, r) in enumerate(zip(exps, got_regions)):
         g = describe_live(r)
         gots.append(g)
-        probs = compare(e, g, cells[i] if i < len(cells) else None, hascomp)
+        probs = compare(e, g, cells[i] if i < len(cells) else None, hascomp, max_poly=max_poly)
         whats = {'class': True, 'geometry': True, 'include-sense': True}
         for key, msg, w in probs:
             whats[w] = False
